@@ -526,58 +526,73 @@ theorem cookie_round_trip (fb' : Policy) (pool : Pool) (ds' : List Nat) (i : Nat
 
 /-! ## the proxy loop: "available" is judged against the requests really in flight
 
-`prun` is the handler around `Select`: requests arrive (`hold` stays in flight at the backend,
-`quick` completes), held requests complete (`fin k`); the pool every `Select` sees carries, per
-address, the number of requests in flight on it — for static upstreams and for upstreams handed
-out afresh by a dynamic source alike (they share the per-address host state). -/
+`prun` is the handler around `Select` (ServeHTTP loop, proxyLoopIteration, tryAgain, countFailure,
+provisionUpstream): requests arrive (GET or POST; held in flight at the backend, or completing),
+held requests complete; a round trip can fail (dial error / other error) and the loop retries
+within `lb_retries`; the pool every `Select` sees carries, per address, the requests in flight and
+the recent failures — for static upstreams and for upstreams handed out afresh by a dynamic source
+alike (they share the per-address host state while somebody references it). -/
+
+/-- the request limit that applies to an upstream: its own `max_requests` if it has one, otherwise
+    the handler's `unhealthy_request_count` — and that is the limit `Full()` sees -/
+theorem own_max_requests_overrides_unhealthy_request_count (c : PCfg) (us : List PUp) (ls fs : List Nat)
+    (i : Nat) (u : Up) (h : (mkPool c us ls fs)[i]? = some u) :
+    ∃ pu, us[i]? = some pu ∧ u.maxReq = (if pu.max = 0 then c.m else pu.max) ∧ ls[i]? = some u.load :=
+  let ⟨pu, h1, h2, h3⟩ := mkPool_get c us ls fs i u h
+  ⟨pu, h1, h3, h2⟩
 
 /-- the in-flight number `Select` sees for an address is exactly the number of held requests
     that were sent to it and have not completed -/
-theorem proxy_loads_are_requests_in_flight (m : Nat) (ids : List Nat) (p : Policy) (ds : List Nat) (evs : List Ev)
-    (j l : Nat) (h : (prun m ids (pinit p ids ds) evs).2.loads[j]? = some l) :
-    l = (prun m ids (pinit p ids ds) evs).2.held.count (some j) :=
-  (prun_inv m ids evs _ (pinit_inv m p ids ds)).2 j l h
+theorem proxy_loads_are_requests_in_flight (c : PCfg) (p : Policy) (ds : List Nat) (evs : List Ev)
+    (j l : Nat) (h : (prun c (pinit p c ds) evs).2.loads[j]? = some l) :
+    l = (prun c (pinit p c ds) evs).2.held.count (some j) :=
+  (prun_inv c evs _ (pinit_inv p c ds)).1 j l h
 
-/-- a request is only ever sent to an address that is below the request limit at that moment -/
-theorem proxy_sends_only_below_limit (m : Nat) (ids : List Nat) (s : PState) (e : Ev) (i : Nat)
-    (h : (pstep m ids s e).1 = .sent i) : ∃ l, s.loads[i]? = some l ∧ (0 < m → l < m) := by
-  cases e with
-  | quick =>
-    simp only [pstep] at h
-    exact select_idx_available (by rw [outOf_sent h]; rfl)
-  | hold =>
-    simp only [pstep] at h
-    exact select_idx_available (by rw [outOf_sent h]; rfl)
-  | fin k =>
-    simp only [pstep] at h
-    split at h <;> cases h
+/-- every round trip of a request — the failed ones and the one that answers — goes to an address
+    that is below its effective request limit at that moment; an address that was tried and failed
+    is a failing one, the one that answers is not -/
+theorem proxy_sends_only_below_limit (c : PCfg) (hold get : Bool) (s : PState) :
+    (∀ j, some j ∈ (attempt c hold get c.retries .none s).1 →
+      (∃ l u, s.loads[j]? = some l ∧ c.ups[j]? = some u ∧ (0 < effLimit c.m u → l < effLimit c.m u)) ∧
+      badAt c.ups j ≠ 0) ∧
+    (∀ i, (attempt c hold get c.retries .none s).2.1 = .sent i →
+      (∃ l u, s.loads[i]? = some l ∧ c.ups[i]? = some u ∧ (0 < effLimit c.m u → l < effLimit c.m u)) ∧
+      badAt c.ups i = 0) := by
+  have post := attempt_post c hold get c.retries .none s
+  exact ⟨post.tried_ok, fun i hi => ⟨(post.sent_ok i hi).1, (post.sent_ok i hi).2.1⟩⟩
 
-/-- … hence, whatever the clients do and whatever the policy, no address ever carries more
-    requests than the limit -/
-theorem proxy_never_exceeds_request_limit (m : Nat) (ids : List Nat) (p : Policy) (ds : List Nat) (evs : List Ev)
-    (hm : 0 < m) : ∀ l ∈ (prun m ids (pinit p ids ds) evs).2.loads, l ≤ m :=
-  all_le_of_get ((prun_inv m ids evs _ (pinit_inv m p ids ds)).1 hm)
+/-- … hence, whatever the clients and the backends do and whatever the policy, no address ever
+    carries more requests than its effective limit -/
+theorem proxy_never_exceeds_request_limit (c : PCfg) (p : Policy) (ds : List Nat) (evs : List Ev)
+    (j l : Nat) (u : PUp) (hl : (prun c (pinit p c ds) evs).2.loads[j]? = some l) (hu : c.ups[j]? = some u)
+    (hpos : 0 < effLimit c.m u) : l ≤ effLimit c.m u :=
+  (prun_inv c evs _ (pinit_inv p c ds)).2 j l u hl hu hpos
 
-/-- a request is refused (503) only if every address is at its limit (for the policies and
-    under the exclusions of `select_some_if_any_available_partial`) -/
-theorem proxy_refuses_only_when_all_full (m : Nat) (ids : List Nat) (s : PState) (e : Ev)
-    (hl : liveOK (mkPool m ids s.loads) s.pol = true) (h : (pstep m ids s e).1 = .refused) :
-    ∀ u ∈ mkPool m ids s.loads, 0 < m ∧ m ≤ u.load := by
-  have hnone : (select true s.pol (mkPool m ids s.loads) s.draws).res = .none := by
-    cases e with
-    | quick => simp only [pstep] at h; exact outOf_refused h
-    | hold => simp only [pstep] at h; exact outOf_refused h
-    | fin k => simp only [pstep] at h; split at h <;> cases h
-  intro u hu
-  have hav : u.avail = false := by
-    cases hh : u.avail with
-    | false => rfl
-    | true =>
-      exact absurd hnone (select_some_if_any_available_partial s.pol true _ s.draws hl (anyAvail_iff.2 ⟨u, hu, hh⟩))
-  have := (mkPool_avail m ids s.loads u hu).1
-  rw [hav] at this
-  simp at this
-  omega
+/-- a request makes at most `lb_retries + 1` loop iterations (round trips and nil selections
+    together); one that is proxied in the end has failed at most `lb_retries` times before -/
+theorem proxy_attempts_bounded (c : PCfg) (hold get : Bool) (s : PState) :
+    (attempt c hold get c.retries .none s).1.length ≤ c.retries + 1 ∧
+    ∀ i, (attempt c hold get c.retries .none s).2.1 = .sent i →
+      (attempt c hold get c.retries .none s).1.length ≤ c.retries :=
+  (attempt_post c hold get c.retries .none s).bound
+
+/-- a request is refused with 503 only if the first `Select` found nothing: no upstream was
+    available then (for the policies and under the exclusions of `select_some_if_any_available_partial`) -/
+theorem proxy_refuses_only_when_nothing_available (c : PCfg) (hold get : Bool) (s : PState)
+    (hl : liveOK (mkPool c c.ups s.loads s.fails) s.pol = true)
+    (h : (attempt c hold get c.retries .none s).2.1 = .status 503) :
+    anyAvail (mkPool c c.ups s.loads s.fails) = false := by
+  have hnone := attempt_503_first_nil c hold get c.retries s h
+  cases ha : anyAvail (mkPool c c.ups s.loads s.fails) with
+  | false => rfl
+  | true => exact absurd hnone (select_some_if_any_available_partial s.pol true _ s.draws hl ha)
+
+/-- `tryAgain`: no retry once `lb_retries` is used up, and a POST request is not retried after an
+    error that is not a dial error (the upstream may have acted on it); dial errors and "no
+    upstreams available" are retried for every method -/
+theorem proxy_retry_rule (left : Nat) (e : PErr) (get : Bool) :
+    tryAgain left e get = (decide (0 < left) && (e ≠ .other || get)) := by
+  cases e <;> simp [tryAgain]
 
 /-! ## the draw list: random and least_conn use at most one draw per upstream -/
 
@@ -685,16 +700,29 @@ example : (select true (.cookie (some 3) .random) exPool [0, 1, 1]).res = .sel 1
 -- the draw list: one draw per upstream is enough
 example : exPool.length ≤ [3, 0, 1, 0, 0].length ∧ (selRandom exPool [3, 0, 1, 0, 0]).1 = .sel 3 ∧ (selRandom exPool [3]).1 = .starved := by decide
 
--- the proxy loop: limit 1, two addresses, policy first: held → 0, quick → 1, held → 1, quick → refused,
--- first held request completes, quick → 0; one request still in flight on address 1
-example : (prun 1 [7, 9] (pinit .first [7, 9] []) [.hold, .quick, .hold, .quick, .fin 0, .quick]).1
-      = [.sent 0, .sent 1, .sent 1, .refused, .done, .sent 0] ∧
-    (prun 1 [7, 9] (pinit .first [7, 9] []) [.hold, .quick, .hold, .quick, .fin 0, .quick]).2.loads = [0, 1] ∧
-    (prun 1 [7, 9] (pinit .first [7, 9] []) [.hold, .quick, .hold, .quick, .fin 0, .quick]).2.held = [none, some 1] := by decide
--- least_conn without limit: while address 0 holds a request every new request goes to address 1
-example : (prun 0 [7, 9] (pinit .leastConn [7, 9] [1]) [.hold, .quick, .quick, .fin 0, .fin 0]).1
-      = [.sent 0, .sent 1, .sent 1, .done, .idle] := by decide
-example : liveOK (mkPool 1 [7, 9] [1, 1]) .first = true ∧
-    (pstep 1 [7, 9] ⟨.first, [1, 1], [some 0, some 1], []⟩ .quick).1 = .refused := by decide
+-- the proxy loop. static upstreams 7 (dial fails), 9, 11 (own max_requests 2); unhealthy_request_count 1,
+-- fail_duration set, lb_retries 2, policy first:
+def exCfg : PCfg := ⟨false, 1, true, 0, 2, [⟨7, 0, 1⟩, ⟨9, 0, 0⟩, ⟨11, 2, 0⟩]⟩
+-- held GET: 7 fails (counted), retried on 9 and held there; GET: 9 is at its limit 1 → 11; POST → 11 (limit 2 of its own);
+-- the held request completes
+example : (prun exCfg (pinit .first exCfg []) [.arrive true true, .arrive false true, .arrive false false, .fin 0]).1
+      = [.req [some 0] (.sent 1), .req [] (.sent 2), .req [] (.sent 2), .done] ∧
+    (prun exCfg (pinit .first exCfg []) [.arrive true true, .arrive false true]).2.loads = [0, 1, 0] ∧
+    (prun exCfg (pinit .first exCfg []) [.arrive true true, .arrive false true]).2.fails = [1, 0, 0] := by decide
+-- own max_requests 2 beats unhealthy_request_count 1: two held requests fit on address 11, the third is refused
+example : (prun ⟨false, 1, false, 0, 0, [⟨11, 2, 0⟩]⟩ (pinit .first ⟨false, 1, false, 0, 0, [⟨11, 2, 0⟩]⟩ [])
+    [.arrive true true, .arrive true true, .arrive true true]).1
+      = [.req [] (.sent 0), .req [] (.sent 0), .req [none] (.status 503)] := by decide
+-- "other" error: a GET is retried (lb_retries 1, no failure counting: the same upstream again), a POST is not
+example : (prun ⟨false, 0, false, 0, 1, [⟨7, 0, 2⟩, ⟨9, 0, 0⟩]⟩ (pinit .first ⟨false, 0, false, 0, 1, [⟨7, 0, 2⟩, ⟨9, 0, 0⟩]⟩ [])
+    [.arrive false true, .arrive false false]).1
+      = [.req [some 0, some 0] (.status 502), .req [some 0] (.status 502)] := by decide
+-- dynamic upstreams: the failure count lives only as long as somebody references the host, so without other
+-- traffic the failing upstream is selected again (static: the example above moves on)
+example : (prun { exCfg with dyn := true } (pinit .first { exCfg with dyn := true } []) [.arrive false true]).1
+      = [.req [some 0, some 0, some 0] (.status 502)] := by decide
+-- proxy_refuses_only_when_nothing_available: hypotheses inhabited
+example : liveOK (mkPool exCfg exCfg.ups [0, 1, 2] [1, 0, 0]) .first = true ∧
+    (attempt exCfg false true exCfg.retries .none ⟨.first, [0, 1, 2], [1, 0, 0], [some 1, some 2, some 2], []⟩).2.1 = .status 503 := by decide
 
 end CaddyModel.C08
